@@ -4,7 +4,7 @@
    dx = (b - a)/n_segments, so that t_p = a (domain_min) and t_{n_segments+p} = b (domain_max). *)
 From Coq Require Import List Reals QArith.
 From Coquelicot Require Import Coquelicot.
-From FDAV Require Import Base.Num Base.Vec Model.Basis Model.Poly Model.Simpson Lemmas.Vec Lemmas.Basis Lemmas.Legendre Lemmas.Ortho Lemmas.Simpson Gen.BasisForms Lemmas.GenBasisForms.
+From FDAV Require Import Base.Num Base.Vec Model.Basis Model.Poly Model.Simpson Lemmas.Vec Lemmas.Basis Lemmas.Legendre Lemmas.Ortho Lemmas.Simpson Gen.BasisForms Lemmas.GenBasisForms Lemmas.Greville.
 Import ListNotations.
 Local Open Scope R_scope.
 
@@ -158,3 +158,17 @@ Theorem C18_translated_fourier_orthonormal : forall a b, a < b -> forall m n, (1
   is_RInt (fun t => gen_fourier_even a b m t * gen_fourier_odd a b n t) a b 0.
 Proof. exact gen_fourier_rows_orthonormal. Qed.
 Print Assumptions C18_translated_fourier_orthonormal.
+
+(* B-splines reproduce the identity with the Greville coefficients (with the partition of unity: every
+   affine function lies in the spline space, with coefficients affine in the index) — on any strictly
+   increasing knots, and for the code's basis on the closed domain *)
+Theorem C18_greville_any_knots : forall t, (forall i, t i < t (S i)) -> forall p n lo x,
+  t (lo + p)%nat <= x < t (lo + n)%nat -> (p < n)%nat -> G_ t p lo n x = INR p * x.
+Proof. exact greville. Qed.
+Print Assumptions C18_greville_any_knots.
+Theorem C18_code_bsplines_reproduce_identity : forall a b nseg p, a < b -> (0 < nseg)%nat -> forall x,
+  (1 <= p)%nat -> a <= x <= b ->
+  vsum opsR (map (fun j => tsum (knot opsR a ((b - a) / INR nseg) p) j p
+                           * bspl opsR p (knot opsR a ((b - a) / INR nseg) p) j x) (seq 0 (nseg + p))) = INR p * x.
+Proof. exact code_bs_greville. Qed.
+Print Assumptions C18_code_bsplines_reproduce_identity.
